@@ -9,7 +9,7 @@ use serde_json::{json, Value};
 use std::io::{Cursor, Write};
 use vph::refdec;
 
-pub const RULE: &str = "(1) full product grid depth {0,1..32,33,u32::MAX} × channels {0,1..8,9,255} × rate {0,1,8000,44100,65535,655350,2^20-1,2^20,u32::MAX} × total {none,0,1,ch-1,ch,ch·w,2^36-1,2^36,u64::MAX…} for the byte, sample and channel writer constructors; (2) every Options setter over boundary values; (3) FlacStreamWriter::write parameter grid; (4) every documented value alone and every pair of documented values across axes (depth 1..32, channels 1..8, rates, LPC order none/1..32, partition order 0..15, block sizes) encodes a short signal that the independent decoder decodes back; (5) declared-length contract: for D ∈ {1,16,17,40} PCM frames, supply ∈ {D−1, D, D+1, 2D}, every ≤2-cut write history, three writers, plus undeclared; both build profiles; (6) FlacChannelWriter::write with malformed channel sets (0..9 channels given to 1/2/3/8-channel writers, unequal / empty channel lengths) at each position of a 3-call history: an error or success, never a panic; (7) the new_cdda constructors of the three writers produce the same file / the same error class as new(44100 Hz, 16 bit, 2 channels) for undeclared, exact, short and long declared totals";
+pub const RULE: &str = "(1) full product grid depth {0,1..32,33,u32::MAX} × channels {0,1..8,9,255} × rate {0,1,8000,44100,65535,655350,2^20-1,2^20,u32::MAX} × total {none,0,1,ch-1,ch,ch·w,2^36-1,2^36,u64::MAX…} for the byte, sample and channel writer constructors; (2) every Options setter over boundary values; (3) FlacStreamWriter::write parameter grid; (4) every documented value alone and every pair of documented values across axes (depth 1..32, channels 1..8, rates, LPC order none/1..32, partition order 0..15, block sizes) encodes a short signal that the independent decoder decodes back; (5) declared-length contract: for D ∈ {1,16,17,40} PCM frames, supply ∈ {D−1, D, D+1, 2D}, every ≤2-cut write history (thorough: 4 formats, D ∈ {1,2,15,16,17,32,33,40}, ≤3 cuts for supplies ≤ 34), three writers, plus undeclared; both build profiles; (6) FlacChannelWriter::write with malformed channel sets (0..9 channels given to 1/2/3/8-channel writers, unequal / empty channel lengths) at each position of a 3-call history: an error or success, never a panic; (7) the new_cdda constructors of the three writers produce the same file / the same error class as new(44100 Hz, 16 bit, 2 channels) for undeclared, exact, short and long declared totals";
 pub const ASSUMPTIONS: &[&str] = &["'works' is judged on one fixed signal per parameter vector (signal variety: C01)", "triples of documented values are covered only through C01's option lattice"];
 pub fn bounds(quick: bool) -> Value {
     json!({"grid": "full product", "pairs": if quick { "all cross-axis pairs, block sizes {16,17,192,4096}" } else { "all cross-axis pairs, block sizes {16,17,192,4096,65535}" }, "history_cuts": 2})
@@ -290,8 +290,11 @@ fn fill(w: WriterKind, sig: &Sig, declared: Option<usize>, pcm: &[i32], cuts: &[
 }
 
 fn contract(ctx: &Ctx, acc: &mut Acc) {
-    for sig in [Sig { rate: 44100, bps: 16, ch: 1 }, Sig { rate: 44100, bps: 8, ch: 2 }] {
-        for d in [1usize, 16, 17, 40] {
+    // thorough: 4 formats (incl. a non-byte-multiple depth and 3 channels), more declared lengths, ≤3-cut histories
+    let sigs: Vec<Sig> = if ctx.quick { vec![Sig { rate: 44100, bps: 16, ch: 1 }, Sig { rate: 44100, bps: 8, ch: 2 }] } else { vec![Sig { rate: 44100, bps: 16, ch: 1 }, Sig { rate: 44100, bps: 8, ch: 2 }, Sig { rate: 48000, bps: 12, ch: 3 }, Sig { rate: 96000, bps: 32, ch: 2 }] };
+    let ds: &[usize] = if ctx.quick { &[1, 16, 17, 40] } else { &[1, 2, 15, 16, 17, 32, 33, 40] };
+    for sig in sigs {
+        for &d in ds {
             for supply in [d - 1, d, d + 1, 2 * d] {
                 for declared in [Some(d), None] {
                     let pcm = ident_pcm(sig.ch, sig.bps, supply);
@@ -300,6 +303,11 @@ fn contract(ctx: &Ctx, acc: &mut Acc) {
                         cutsets.push(vec![a]);
                         for b in a..=supply {
                             cutsets.push(vec![a, b]);
+                            if !ctx.quick && supply <= 34 {
+                                for c in b..=supply {
+                                    cutsets.push(vec![a, b, c]);
+                                }
+                            }
                         }
                     }
                     for cuts in cutsets {
